@@ -280,7 +280,7 @@ def _acc_violations(res, rep, hist, events):
 
 
 def bfs_check(prop, harness, tier, configs, rule, assumptions, witness_required=(), flavour="asan", extra_args=(),
-              crosscheck_depth=None, per_request_timeout=60):
+              crosscheck_depth=None, per_request_timeout=60, extra_pass=None):
     """configs: list of dict(name, config, depth, dev, deadline). Runs one BFS per config and concludes."""
     t0 = time.time()
     bdir = C.build([harness], flavour)
@@ -359,6 +359,8 @@ def bfs_check(prop, harness, tier, configs, rule, assumptions, witness_required=
     }
     if not all_exhaustive:
         cov["note"] = "a deadline or depth bound cut the search: see per_config[*].completed_depth for what was fully covered"
+    if extra_pass:
+        extra_pass(findings, cov)
     return C.conclude(prop, tier, "model_checking", cov, assumptions, t0, findings)
 
 
